@@ -150,15 +150,15 @@ def normalize(doc):
 
 # ----------------------------------------------------------------------------- rendering
 def supports(fmt):
-    from .writers import docx as wd, odf, web, misc
-    return {"docx": wd.SUPPORTS, "odt": odf.ODT_SUPPORTS, "html": web.HTML_SUPPORTS, "mhtml": web.HTML_SUPPORTS,
+    from .writers import docx as wd, odf, web, misc, doc as wdoc
+    return {"doc": wdoc.SUPPORTS, "docx": wd.SUPPORTS, "odt": odf.ODT_SUPPORTS, "html": web.HTML_SUPPORTS, "mhtml": web.HTML_SUPPORTS,
             "epub": web.HTML_SUPPORTS, "rtf": misc.RTF_SUPPORTS}[fmt]
 
 
 def expressible(doc, fmt):
     k = doc.get("kind", "flow")
     if k == "flow":
-        return fmt in ("docx", "odt", "html", "mhtml", "epub", "rtf") and constructs(doc) <= supports(fmt)
+        return fmt in ("doc", "docx", "odt", "html", "mhtml", "epub", "rtf") and constructs(doc) <= supports(fmt)
     if k == "deck":
         if fmt == "ppt":
             from .writers import ppt as wppt
@@ -175,6 +175,9 @@ def render(doc, fmt) -> bytes:
     from .writers import docx as wd, pptx as wp, xlsx as wx, odf, web, misc
     k = doc.get("kind", "flow")
     if k == "flow":
+        if fmt == "doc":
+            from .writers import doc as wdoc
+            return wdoc.write_doc(doc)
         if fmt == "docx":
             return wd.write_docx(doc, images=[(i["target"], i.get("data"), i.get("part")) for i in doc.get("images") or []])
         if fmt == "odt":
@@ -214,7 +217,7 @@ def render(doc, fmt) -> bytes:
     raise ValueError((k, fmt))
 
 
-EXTRACTOR = {"docx": "read_docx", "odt": "read_odt", "html": "read_html", "mhtml": "read_mhtml", "epub": "read_epub",
+EXTRACTOR = {"doc": "read_doc", "docx": "read_docx", "odt": "read_odt", "html": "read_html", "mhtml": "read_mhtml", "epub": "read_epub",
              "rtf": "read_rtf", "pptx": "read_pptx", "ppt": "read_ppt", "odp": "read_odp", "odg": "read_odg", "xlsx": "read_xlsx",
              "ods": "read_ods", "odf": "read_odf", "xls": "read_xls", "pdf": "read_pdf", "txt": "read_plain_text", "md": "read_plain_text",
              "csv": "read_plain_text", "tsv": "read_plain_text", "json": "read_plain_text"}
@@ -324,6 +327,10 @@ def rich_doc(fmt, seed=0):
               ["tbl", [[[["p", [["r", 4]]]], [["p", [["r", 5]]]]], [[["p", [["r", 6]]]], [["p", [["r", 7]]]]]]],
               ["h", 2, [["r", 8]]], ["p", [["r", 9]]]]
     props = {"title": "Rich T", "author": "Au Thor", "subject": "Subj", "keywords": "k1 k2", "description": "Descr"}
+    if fmt == "doc":      # legacy Word: paragraphs, a table, a hyperlink field, a footnote, a comment, header / footer
+        return flow_doc([["p", [["r", 1], ["tab"], ["r", 2]]], ["p", [["r", 3], ["a", [["r", 4]]], ["fn", 5], ["cm", 6]]],
+                         ["tbl", [[[["p", [["r", 7]]]], [["p", [["r", 8]]]]], [[["p", [["r", 9]]]], [["p", [["r", 10]]]]]]],
+                         ["p", [["r", 11], ["br"], ["r", 12]]]], header=[["r", 13]], footer=[["r", 14]], props=props)
     if fmt in ("docx", "odt", "html", "mhtml", "epub", "rtf"):
         d = flow_doc(blocks, props=props)
         if fmt == "docx":
